@@ -1294,6 +1294,54 @@ fn cases_wal(vals: &[Value], out: &mut Sink) {
     let _ = std::fs::remove_dir_all(&dir);
 }
 
+// ------------------------------------------------------------------------------------------
+/// Long payloads: length prefixes above 2^16 (strings, byte strings, map keys, lists, vectors).  Oracle on
+/// the implementation (bit-for-bit round trips through bincode and the spill format, reflexive
+/// HashableValue equality, equal hash feeds of equal values).
+fn cases_long(out: &mut Sink, thorough: bool) {
+    let lens: &[usize] = if thorough { &[65_535, 65_536, 65_537, 70_001, 131_073, 300_000] } else { &[65_535, 65_536, 65_537, 70_001] };
+    for &n in lens {
+        let txt: String = (0..n).map(|i| (b'a' + (i % 23) as u8) as char).collect();
+        let bytes: Vec<u8> = (0..n).map(|i| (i * 7 + i / 251) as u8).collect();
+        let mut vals: Vec<(&str, Value)> = vec![
+            ("string", vs(&txt)),
+            ("bytes", vb(&bytes)),
+            ("list", vl((0..n).map(|i| if i % 3 == 0 { Value::Null } else { Value::Int64(i as i64) }).collect())),
+            ("vector", vv(&(0..n).map(|i| i as u32).collect::<Vec<_>>())),
+        ];
+        let mut m = BTreeMap::new();
+        m.insert(grafeo_common::types::PropertyKey::new(txt.as_str()), Value::Int64(n as i64));
+        m.insert(grafeo_common::types::PropertyKey::new("k"), vs(&txt[..n / 2]));
+        vals.push(("mapkey", Value::Map(std::sync::Arc::new(m))));
+        for (what, v) in vals {
+            let bytes_bc = bc(&v);
+            let dec = bc_decode(&bytes_bc);
+            let ok_bc = matches!(&dec, Some((w, k)) if bits_eq(w, &v) && *k == bytes_bc.len());
+            let mut sb = Vec::new();
+            let ret = serialize_value(&v, &mut sb).expect("spill write");
+            let mut cur = std::io::Cursor::new(&sb[..]);
+            let sdec = deserialize_value(&mut cur).ok();
+            let used = cur.position() as usize;
+            let ok_sp = matches!(&sdec, Some(w) if bits_eq(w, &v)) && used == sb.len() && ret == sb.len();
+            let h1 = HashableValue::new(v.clone());
+            let h2 = HashableValue::new(v.clone());
+            let ok_h = h1 == h2 && feed_of(&h1) == feed_of(&h2);
+            let ok = ok_bc && ok_sp && ok_h;
+            out.emit(&Case {
+                kind: "long".into(),
+                input: format!("{} of length {}", what, n),
+                coq: None, // a 2^16-element list literal overflows coqc's stack: oracle on the implementation only
+                oracle: if ok { Oracle::Ok } else { Oracle::Fail },
+                msg: if ok { String::new() } else { format!("long payload does not survive: bincode ok={} spill ok={} (used {} of {} bytes, ret {}) hashable ok={}", ok_bc, ok_sp, used, sb.len(), ret, ok_h) },
+                nontrivial: true,
+                imp: format!("bincode {} bytes, spill {} bytes", bytes_bc.len(), sb.len()),
+                tags: vec![format!("long:{}", what)],
+                ..Default::default()
+            });
+        }
+    }
+}
+
 fn main() {
     let a = parse_args();
     quiet_panics();
@@ -1319,6 +1367,9 @@ fn main() {
     case_pair(&vf(QNAN), &vf(QNAN | 1), "corpus", &mut out);
     case_rowkey(&Value::Int64(ONE_BITS as i64), &vf(ONE_BITS), &mut out, false);
     case_rowkey(&vb(&[1, 2, 3]), &vb(&[1, 9, 3]), &mut out, false);
+
+    // ---- long payloads (length prefixes above 2^16)
+    cases_long(&mut out, thorough);
 
     // ---- floats
     for (i, &x) in F64_BOUND.iter().enumerate() {
